@@ -102,6 +102,16 @@ def handleStateless (toks : List String) : String :=
     match cp.toNat?, parseRats? rest with
     | some cp, some es => " ".intercalate ("sel" :: (climbIndices cp es).map toString)
     | _, _ => err "format"
+  -- respace k <climb ×k> <α…> : the arc coordinates at which `step` places the new images
+  | "respace" :: k :: rest =>
+    match k.toNat? with
+    | some k =>
+      match parseNats? (rest.take k), parseRats? (rest.drop k) with
+      | some climb, some α =>
+        if α.isEmpty ∨ climb.any (fun c => c = 0 ∨ c + 1 ≥ α.length) ∨ ¬ (climb.zip (climb.drop 1)).all (fun (a, b) => a < b)
+        then err "value" else showRats (Path.respaceTargets climb α)
+      | _, _ => err "format"
+    | none => err "format"
   | "pdef" :: n :: [] =>
     match n.toNat? with
     | some n => if n = 0 then err "value" else
